@@ -129,11 +129,15 @@ func TestVerifHTTP(t *testing.T) {
 	srcLists := [][]string{nil, {"good", "oth/er"}, {"site.alpha", "b1/c2", "good"}}
 	keyLists := [][]string{nil, {"k1", "k2"}}
 
+	caseSeq := 0
 	run := func(c vhCase) {
 		a.conf.Sources = srcLists[c.srcsv]
 		a.conf.Keys = keyLists[c.keysv]
 		before := vhSnapshot(root, dirs.LogMsg)
-		content := []byte("payload-bytes")
+		// every request carries a version of its own: the receiver remembers what it delivered under a
+		// name, and an identical retransmission would be discarded instead of being put away
+		caseSeq++
+		content := []byte(fmt.Sprintf("payload-%07d", caseSeq))
 		var req *nethttp.Request
 		exists := 0
 		switch c.route {
